@@ -210,6 +210,15 @@ def main (args : List String) : IO UInt32 := do
     for l in ls do
       IO.println l
     return (if holds then 0 else 1)
+  | "c12" :: specFile :: rest =>
+    -- C12: the failure-persistence model's prediction for each spec (one spec per line)
+    let fixed := rest.contains "fixed"
+    let out ← IO.getStdout
+    for l in (← IO.FS.readFile specFile).splitOn "\n" do
+      let spec := l.trimAscii.toString
+      if spec ≠ "" then
+        out.putStrLn (if fixed then Failure.predictSweepFixed spec else Failure.predictSweep spec)
+    return 0
   | ["selftest"] =>
     let ok := Rng.Vectors.rngSelfTest
     IO.println s!"rngSelfTest {ok}"
